@@ -63,12 +63,18 @@ pub fn spawn_tftpd(extra: &[&str], ipv6: bool) -> Result<Proc, String> {
         let fix = |a: &str| a.trim_start_matches("@first:").replace("{dir}", &dir);
         // "@reldir": the served directory is given as "." (relative), with the process started inside it
         let reldir = extra.iter().any(|a| *a == "@reldir");
+        let relparent = extra.iter().any(|a| *a == "@relparent");
         let first: Vec<String> = extra.iter().filter(|a| a.starts_with("@first:")).map(|a| fix(a)).collect();
-        let rest: Vec<String> = extra.iter().filter(|a| !a.starts_with("@first:") && **a != "@reldir").map(|a| fix(a)).collect();
+        let rest: Vec<String> = extra.iter().filter(|a| !a.starts_with("@first:") && **a != "@reldir" && **a != "@relparent").map(|a| fix(a)).collect();
         let extra = &rest;
-        let served = if reldir { ".".to_string() } else { format!("{dir}/srv") };
+        // "@relparent": started in the PARENT of the served directory, which is given by its relative name ("srv"); "{rel}" in
+        // other arguments stays relative too (e.g. "-rd up")
+        let served = if reldir { ".".to_string() } else if relparent { "srv".to_string() } else { format!("{dir}/srv") };
         if reldir {
             cmd.current_dir(format!("{dir}/srv"));
+        }
+        if relparent {
+            cmd.current_dir(&dir);
         }
         cmd.args(&first).args(["-i", ip, "-p", &port.to_string(), "-d", &served]).args(extra).stdin(Stdio::null()).stdout(Stdio::null()).stderr(Stdio::null());
         die_with_parent(&mut cmd);
@@ -87,11 +93,17 @@ pub fn spawn_tftpd(extra: &[&str], ipv6: bool) -> Result<Proc, String> {
             let _ = s.set_read_timeout(Some(Duration::from_millis(3)));
             let _ = s.send_to(&rc::request(false, b"ready.tok", &[]), addr);
             if let Ok((k, from)) = s.recv_from(&mut buf) {
-                if let Ok(RPacket::Data { block: 1, data }) = rc::decode(&buf[..k]) {
-                    let _ = s.send_to(&rc::ack(1), from);
-                    if data == token.as_bytes() {
-                        ready = true;
+                match rc::decode(&buf[..k]) {
+                    Ok(RPacket::Data { block: 1, data }) => {
+                        let _ = s.send_to(&rc::ack(1), from);
+                        if data == token.as_bytes() {
+                            ready = true;
+                        }
                     }
+                    // with relative directories "is it up" must not depend on "does it resolve them as it should" (that is
+                    // what the cell is about): any answer of a live process counts (shards have private port spaces)
+                    Ok(RPacket::Error { .. }) if relparent => ready = true,
+                    _ => {}
                 }
             }
         }
